@@ -28,29 +28,87 @@ def build(ctx):
         code = [z3.BitVec('child%d.code' % i, 32) for i in range(n)]
         for i in range(n):
             st.assume(succ[i] == z3.And(code_some[i], code[i] == 0))
-        groups = Seq([Tup([Opaque('&Edition', 'ed%d' % i), Opaque('Vec<&PathBuf>', 'files%d' % i)]) for i in range(n)])
-        waits = {'n': 0}
-
-        def fold_stub(eng_, st_, args, ci):
-            return Tup([groups], 'HashMap')     # entry list; iterated by value below
+        # n targets with n different editions (so the real grouping code makes n groups); whether it is written as inspect().fold()
+        # or as a loop over the set with entry().or_default().push() does not matter: the BTreeSet / BTreeMap API is modelled
+        ed_variants = eng.enum_variants('Edition') or ['E0', 'E1', 'E2', 'E3']
+        if n > len(ed_variants):
+            raise Inconclusive('more groups requested than editions exist')
+        tfields = [f for f, _ in eng.src.struct_fields('Target', 'src/cargo-fmt/main.rs')]
+        tvals = []
+        for i in range(n):
+            d_ = {'path': Opaque('PathBuf', 'path%d' % i), 'kind': Opaque('String', 'kind%d' % i), 'edition': Enum('Edition', i, {})}
+            tvals.append(Tup([d_[f] for f in tfields], 'Target'))
+        tset = eng.ref_to(st, Seq(tvals), False, 'targets')
         eng.stubs = []
-        eng.stub(r'as Iterator>::fold::<BTreeMap<', fold_stub, 'grouping of targets by edition = harness-supplied list of n groups')
 
-        def into_iter_stub(eng_, st_, args, ci):
-            cell = eng_.ref_to(st_, args[0].items[0], True, 'owned')
+        def set_iter(eng_, st_, args, ci):
+            r = args[0]
+            while isinstance(r, Ref) and isinstance(eng_.read_ref(st_, r), Ref):
+                r = eng_.read_ref(st_, r)
+            seq = eng_.read_ref(st_, r)
+            refs = [Ref(r.key, r.projs + (('cindex', j),), False) for j in range(len(seq.items))]
+            cell = eng_.ref_to(st_, Seq(refs), True, 'set_iter')
             return Tup([cell, bv_const(0, 'usize')], 'OwnedIter')
-        eng.stub(r'^<BTreeMap<.*> as IntoIterator>::into_iter$', into_iter_stub, 'BTreeMap::into_iter over the n groups')
+        eng.stub(r'BTreeSet::<Target>::iter$|^<&BTreeSet<Target> as (std::iter::)?IntoIterator>::into_iter$', set_iter, 'BTreeSet<Target>::iter = the harness targets in order')
+        eng.stub(r'btree_set::Iter<.*> as (std::iter::)?Iterator>::inspect::<', lambda e, s_, a, c: a[0], 'Iterator::inspect (its closure only prints): the same iterator')
 
-        def next_stub(eng_, st_, args, ci):
+        def owned_next(eng_, st_, args, ci):
             it = eng_.read_ref(st_, args[0])
             cell, pos = it.items
             seq = eng_.read_ref(st_, cell)
-            p = pos.concrete()
-            if p >= len(seq.items):
+            p_ = pos.concrete()
+            if p_ >= len(seq.items):
                 return Enum('Option', 0, {})
-            eng_.write_ref(st_, args[0], Tup([cell, bv_const(p + 1, 'usize')], 'OwnedIter'))
-            return Enum('Option', 1, {1: Tup([seq.items[p]])})
-        eng.stub(r'^<std::collections::btree_map::IntoIter<.*> as Iterator>::next$', next_stub, 'btree_map::IntoIter::next')
+            eng_.write_ref(st_, args[0], Tup([cell, bv_const(p_ + 1, 'usize')], 'OwnedIter'))
+            return Enum('Option', 1, {1: Tup([seq.items[p_]])})
+        eng.stub(r'btree_set::Iter<.*> as (std::iter::)?Iterator>::next$', owned_next, 'btree_set::Iter::next')
+
+        def fold_stub(eng_, st_, args, ci):
+            it, acc, f = args
+            cell, pos = it.items
+            items = list(eng_.read_ref(st_, cell).items)[pos.concrete():]
+            live = [(st_, acc)]
+            for item in items:
+                nxt = []
+                for (s1, a1) in live:
+                    for (s2, kind, val) in eng_.call_value(s1, f, [a1, item], None):
+                        if kind != 'ret':
+                            raise Unsupported('fold closure did not return')
+                        nxt.append((s2, val))
+                live = nxt
+            return [(s2, 'ret', v2) for (s2, v2) in live]
+        eng.stub(r'as (std::iter::)?Iterator>::fold::<BTreeMap<', fold_stub, 'Iterator::fold over the targets with the real closure')
+        eng.stub(r'BTreeMap::<.*>::new$', lambda e, s_, a, c: Tup([Seq([])], 'EntryMap'), 'BTreeMap::new = empty entry list')
+
+        def map_entry(eng_, st_, args, ci):
+            return Tup([args[0], args[1]], 'MapEntry')
+        eng.stub(r'BTreeMap::<.*>::entry$', map_entry, 'BTreeMap::entry(key)')
+
+        def or_default(eng_, st_, args, ci):
+            mref, key = args[0].items
+            kd = deref(eng_, st_, key)
+            if not (isinstance(kd, Enum) and kd.concrete() is not None):
+                raise Unsupported('map key %r' % (kd,))
+            m = eng_.read_ref(st_, mref)
+            ents = list(m.items[0].items)
+            idx = None
+            for j, e_ in enumerate(ents):
+                if deref(eng_, st_, e_.items[0]).concrete() == kd.concrete():
+                    idx = j
+            if idx is None:
+                ents.append(Tup([key, Seq([])]))
+                idx = len(ents) - 1
+                eng_.write_ref(st_, mref, Tup([Seq(ents)], 'EntryMap'))
+            return Ref(mref.key, mref.projs + (('field', 0), ('cindex', idx), ('field', 1)), True)
+        eng.stub(r'btree_map::Entry::<.*>::or_default$|Entry::<.*>::or_insert_with::<|Entry::<.*>::or_insert$', or_default, 'Entry::or_default: the vector stored under that edition (created if absent)')
+
+        def into_iter_stub(eng_, st_, args, ci):
+            m = deref(eng_, st_, args[0])
+            ents = sorted(m.items[0].items, key=lambda e_: deref(eng_, st_, e_.items[0]).concrete())
+            cell = eng_.ref_to(st_, Seq(ents), True, 'owned')
+            return Tup([cell, bv_const(0, 'usize')], 'OwnedIter')
+        eng.stub(r'^<BTreeMap<.*> as IntoIterator>::into_iter$', into_iter_stub, 'BTreeMap::into_iter: entries in key order')
+        eng.stub(r'^<std::collections::btree_map::IntoIter<.*> as Iterator>::next$', owned_next, 'btree_map::IntoIter::next')
 
         def wait_stub(eng_, st_, args, ci):
             k = len([t for t in st_.trace if t[0] == 'wait'])
@@ -74,7 +132,7 @@ def build(ctx):
             k = s_.ident
             return Enum('Option', z3.If(code_some[k], z3.BitVecVal(1, 64), z3.BitVecVal(0, 64)), {1: Tup([BV(code[k], 'i32')])})
         eng.stub(r'ExitStatus::code$', code_stub, 'ExitStatus::code = symbolic per child (None = killed by a signal)')
-        targets = eng.ref_to(st, Opaque('BTreeSet<Target>', 'targets'), False)
+        targets = tset
         fmt_args = eng.ref_to(st, Seq([]), False)
         verbosity = eng.fresh_of_type(st, 'Verbosity', 'verbosity')
         outs = ctx.check_outcomes(eng.run(rr, [targets, fmt_args, verbosity], st), 'run_rustfmt')
